@@ -362,7 +362,102 @@ def prop_program(case, ctx):
         close(ctx, dense(Z), np.multiply.outer(ref, dense(Yo)), 2 * K * EPS * np.multiply.outer(maj, dense_abs(Yo)), "program: outer at the root")
 
 
+# ------------------------------------------------------------------------------------------- tensors far too large for a dense copy
+
+@st.composite
+def large_cases(draw, tier):
+    d = draw(st.integers(20, 70 if tier == "quick" else 120))
+    nmax = draw(st.sampled_from([2, 3, 10]))
+    n = [draw(st.integers(2, nmax)) for _ in range(d)]
+    rmax = draw(st.sampled_from([1, 2, 3]))
+    r = [1] + [draw(st.integers(1, rmax)) for _ in range(d - 1)] + [1]
+    return {"n": n, "r": r, "seed": draw(gen.seeds), "fam": draw(st.sampled_from(["gauss", "smallint", "positive"])),
+            "I": [[draw(st.integers(0, k - 1)) for k in n] for _ in range(4)], "c": draw(st.sampled_from([2.5, -1.0, 0.5, 3]))}
+
+
+def chain(mats):
+    v = np.ones((1, 1))
+    for M in mats:
+        v = v @ M
+    return float(v[0, 0])
+
+
+def prop_large(case, ctx):
+    """The tensor has up to 10^70 elements: references are chains of small matrix products written here (never a dense array)."""
+    n, r = case["n"], case["r"]
+    d = len(n)
+    rng = np.random.default_rng(case["seed"])
+
+    def mk():
+        Y = []
+        for k in range(d):
+            sh = (r[k], n[k], r[k + 1])
+            if case["fam"] == "smallint":
+                G = rng.integers(-1, 2, size=sh).astype(float)
+            elif case["fam"] == "positive":
+                G = rng.uniform(0.5, 1.5, size=sh) / (n[k] * max(r[k], 1)) * 1.7
+            else:
+                G = rng.normal(size=sh) / np.sqrt(n[k] * r[k]) * 1.3
+            Y.append(G)
+        return Y
+    Y, Y2 = mk(), mk()
+    nelem = 1
+    for k in n:
+        nelem *= k
+    ctx.label(f"fam:{case['fam']}", "elements>=2^63" if nelem >= 2 ** 63 else "elements<2^63", f"d~{d // 10 * 10}")
+    ctx.nontrivial(nelem >= 2 ** 63)
+    K = 64.0 * (d + sum(r) + max(n))
+    ex = case["fam"] == "smallint"
+
+    def cmp(got, mats, amats, what, exact=False):
+        ref, maj = chain(mats), chain(amats)
+        got = float(got)
+        if exact and abs(ref) < 2 ** 52 and maj < 2 ** 52:
+            ctx.check(got == ref, f"{what}: not exact on small-integer cores", got=got, ref=ref)
+        else:
+            ctx.check(abs(got - ref) <= K * EPS * maj and np.isfinite(got), f"{what}: differs from the chain reference beyond rounding", got=got, ref=ref, tol=K * EPS * maj)
+
+    S = [G.sum(axis=1) for G in Y]
+    Sa = [np.abs(G).sum(axis=1) for G in Y]
+    cmp(ctx.lib(teneva.sum, Y), S, Sa, "sum (huge tensor)", ex)
+    cmp(ctx.lib(teneva.mean, Y), [M / k for M, k in zip(S, n)], [M / k for M, k in zip(Sa, n)], "mean (huge tensor)")
+    P = [rng.uniform(0, 1, size=k) for k in n]
+    cmp(ctx.lib(teneva.mean, Y, [p.tolist() for p in P]), [np.einsum('aib,i->ab', G, p) for G, p in zip(Y, P)],
+        [np.einsum('aib,i->ab', np.abs(G), p) for G, p in zip(Y, P)], "mean(P) (huge tensor)")
+    for i in case["I"]:
+        cmp(ctx.lib(teneva.get, Y, i), [G[:, ik, :] for G, ik in zip(Y, i)], [np.abs(G[:, ik, :]) for G, ik in zip(Y, i)], "get (huge tensor)", ex)
+    Iarr = np.array(case["I"], dtype=int)
+    got = ctx.lib(teneva.get_many, Y, Iarr)
+    for j, i in enumerate(case["I"]):
+        cmp(got[j], [G[:, ik, :] for G, ik in zip(Y, i)], [np.abs(G[:, ik, :]) for G, ik in zip(Y, i)], "get_many (huge tensor)", ex)
+    kr = lambda A, B: np.einsum('aib,cid->acbd', A, B).reshape(A.shape[0] * B.shape[0], A.shape[2] * B.shape[2])
+    cmp(ctx.lib(teneva.mul_scalar, Y, Y2), [kr(A, B) for A, B in zip(Y, Y2)], [kr(np.abs(A), np.abs(B)) for A, B in zip(Y, Y2)], "mul_scalar (huge tensor)", ex)
+    nr = ctx.lib(teneva.norm, Y)
+    g = chain([kr(A, A) for A in Y]); ga = chain([kr(np.abs(A), np.abs(A)) for A in Y])
+    ctx.check(math.sqrt(max(g - K * EPS * ga, 0.0)) * (1 - 1e-12) <= nr <= math.sqrt(g + K * EPS * ga) * (1 + 1e-12), "norm (huge tensor)", got=float(nr), ref=math.sqrt(max(g, 0.0)))
+    ctx.check(list(map(int, ctx.lib(teneva.shape, Y))) == n and list(map(int, ctx.lib(teneva.ranks, Y))) == r, "shape / ranks (huge tensor)")
+    ctx.check(int(ctx.lib(teneva.size, Y)) == sum(G.size for G in Y), "size (huge tensor)")
+    er = float(ctx.lib(teneva.erank, Y))
+    params = sum(n[k] * r[k] * r[k + 1] for k in range(d))
+    lhs = n[0] * er + sum(n[1:d - 1]) * er ** 2 + n[d - 1] * er
+    ctx.check(abs(lhs - params) <= 1e-9 * params, "erank (huge tensor)", got=er)
+    # algebra results, evaluated entrywise
+    c = case["c"]
+    for name, Z, f in (("add", ctx.lib(teneva.add, Y, Y2), lambda a, b: a + b), ("sub", ctx.lib(teneva.sub, Y, Y2), lambda a, b: a - b),
+                       ("mul", ctx.lib(teneva.mul, Y, Y2), lambda a, b: a * b), ("add(T,c)", ctx.lib(teneva.add, Y, c), lambda a, b: a + c),
+                       ("mul(T,c)", ctx.lib(teneva.mul, Y, c), lambda a, b: a * c), ("sub(c,T)", ctx.lib(teneva.sub, c, Y), lambda a, b: c - a)):
+        why = oracle.wellformed(Z, n, finite=False)
+        ctx.check(why is None, f"{name} (huge tensor): {why}")
+        vals = ctx.lib(teneva.get_many, Z, Iarr)
+        for j, i in enumerate(case["I"]):
+            a = chain([G[:, ik, :] for G, ik in zip(Y, i)]); b = chain([G[:, ik, :] for G, ik in zip(Y2, i)])
+            aa = chain([np.abs(G[:, ik, :]) for G, ik in zip(Y, i)]); ba = chain([np.abs(G[:, ik, :]) for G, ik in zip(Y2, i)])
+            maj = {"mul": aa * ba}.get(name, aa + ba + abs(c))
+            ctx.check(abs(float(vals[j]) - f(a, b)) <= 4 * K * EPS * maj, f"{name} (huge tensor): entry differs from the reference", got=float(vals[j]), ref=f(a, b))
+
+
 SUBCHECKS = [
+    Sub("large_d", prop_large, strategy=large_cases, quick=40, thorough=600),
     Sub("eval", prop_eval, strategy=eval_cases, quick=250, thorough=4000),
     Sub("binary", prop_binary, strategy=binary_cases, quick=200, thorough=3000),
     Sub("program", prop_program, strategy=program_cases, quick=250, thorough=4000),
